@@ -18,7 +18,7 @@ func init() {
 		Assumptions: []string{"registration-time ASG tagging (addASGTags → CreateOrUpdateTags) is not one of the statement's write classes and is exempt by name"}})
 	register(&propSpec{ID: "C01", Run: checkC01,
 		Explanation: "Safety on all paths: instance termination and Node deletion are issued only by the delete step, which receives exactly the nodes the two reapers appended; the grace reaper's append is guarded by taint-time-readable ∧ ((age > soft ∧ empty) ∨ age > hard) with age built from that node's own stored taint time and strict comparisons, the force reaper's by emptiness; the lists the reapers range over are the classifier's tainted / force-tainted lists, whose appends require ¬cordoned ∧ taint present (outside dry mode); emptiness counts every non-daemonset pod of the group's pod list filed under the node's name; the reapers read no remembered state besides Opts and the NodeInfoMap rebuilt earlier in the same scan.",
-		RuleText:    "obligation = rule id + construct; R1/R2 deletion flow + element provenance, R3 grace guard implication, R4 force guard, R5 classification guards + scaleOpts binding, R6 emptiness shape, R7 restart invariance, R8 listed Node / Pod objects and lists are never written (the taint and its time are read from the cluster's state, not from a locally modified copy), R9 the listers hand out exactly what the group filter accepts, R10 the taint time is read back in the representation it was written in",
+		RuleText:    "obligation = rule id + construct; R1/R2 deletion flow + element provenance, R3 grace guard implication, R4 force guard, R5 classification guards + scaleOpts binding, R6 emptiness shape, R7 restart invariance, R8 listed Node / Pod objects and lists are never written (the taint and its time are read from the cluster's state, not from a locally modified copy), R9 the listers hand out exactly what the group filter accepts, R10 the taint time is read back in the representation it was written in, R11 the informers list every pod that can still run and every node, R12 no client before both caches synced",
 		Assumptions: []string{"the informer cache is the cluster view of the scan", "strconv/time semantics; the value of the clock", "soft < hard is C16's concern"}})
 	register(&propSpec{ID: "C09", Run: checkC09,
 		Explanation: "Outside dry mode no action site can receive a node that was cordoned in this scan's snapshot: the classifier appends to untainted/tainted/force-tainted only under ¬Unschedulable; the node arguments of taint / untaint / delete have provenance in those lists only (interprocedural parameter binding up to the scan body); capacity, percent node count and delta node list are taken from the untainted list; the cordoned list flows only to len/logging/metrics.",
@@ -417,6 +417,10 @@ func checkC01(ck *Check) {
 	// reader parses exactly that representation (base-10 int64 seconds; decided as C15.R6) — a
 	// lossy reading (floats, other units) turns foreign or far-future values into "long ago"
 	ck.timeRoundTrip("C01.R10")
+	// R11: "runs no pods" is judged on every pod of the cluster that can still run
+	ck.clusterView("C01.R11")
+	// R12: and on caches that have been filled: no client before both informers synced
+	ck.cacheSynced("C01.R12")
 }
 
 // classification checks the classifier's appends. want maps result index → role:
